@@ -32,11 +32,37 @@ Judge(e) ==
             /\ (r.result = "ok" => Len(e.steps) >= 1 /\ ~e.steps[Len(e.steps)])
             /\ (r.result # "ok" => \A i \in 1..Len(e.steps) : e.steps[i])) THEN "steps"
   ELSE "ok"
+\* ---- quad pipelines into datasets (insert_all / remove_all): items whose id is a multiple of 5 sit in a named graph ----
+\* GraphAsDataset refuses (SinkError, OnlyDefaultGraph) the first such item on insertion and ignores them on removal; FastDataset and
+\* LightDataset take everything.  Judged on what the consumer holds afterwards (init = what it held before), the count it reports, the
+\* side it blames and how far the source was pulled.
+RECURSIVE FirstNamed(_, _)
+FirstNamed(d, i) == IF i > Len(d) THEN 0 ELSE IF d[i] % 5 = 0 THEN i ELSE FirstNamed(d, i + 1)
+JudgeQ(e) ==
+  LET upto == IF e.k = 0 THEN Len(e.src) ELSE e.k - 1
+      all == Filtered(e.src, upto, e.chain)
+      j == IF e.sink = "gasd_insert" THEN FirstNamed(all, 1) ELSE 0
+      r == Run([src |-> e.src, k |-> e.k, chain |-> e.chain, j |-> j], 0, <<>>, <<>>, "running")
+      got == IF r.result = "sink" THEN SetOf(SubSeq(r.delivered, 1, Len(r.delivered) - 1)) ELSE SetOf(r.delivered)
+      init == SetOf(e.init)
+      inserting == e.sink \in {"gasd_insert", "fast_insert", "light_insert"}
+      seen == IF e.sink = "gasd_remove" THEN {x \in got : x % 5 # 0} ELSE got
+      after == IF inserting THEN init \cup got ELSE init \ seen
+      changed == IF inserting THEN got \ init ELSE init \cap seen
+  IN
+  IF e.result # r.result THEN "result"
+  ELSE IF r.result = "source" /\ e.payload # (IF e.srckind = "iter" THEN 1000 + e.k ELSE -1) THEN "payload"
+  ELSE IF r.result = "sink" /\ e.payload # -4 THEN "payload"
+  ELSE IF SetOf(e.contents) # after THEN "contents"
+  ELSE IF Len(e.contents) # Cardinality(after) THEN "duplicates"
+  ELSE IF r.result = "ok" /\ e.count # Cardinality(changed) THEN "count"
+  ELSE IF e.pulled >= 0 /\ e.pulled < r.pos THEN "pulled"
+  ELSE "ok"
 \* the state machine's own variables are idle here: every event is judged by the closed form Run (AgreeInv in MC_Streams)
 TInit == l = 1 /\ Src = <<>> /\ K = 0 /\ Chain = <<>> /\ J = 0 /\ pos = 0 /\ delivered = <<>> /\ steps = <<>> /\ result = ""
 TNext == /\ l <= Len(Rec) /\ l' = l + 1 /\ UNCHANGED vars
         /\ LET e == Rec[l]
-               v == IF e.ev = "Pipe" THEN Judge(e) ELSE "panic" IN
+               v == IF e.ev = "Pipe" THEN Judge(e) ELSE IF e.ev = "QPipe" THEN JudgeQ(e) ELSE "panic" IN
            IF v = "ok" THEN TRUE ELSE PrintT(<<"MISMATCH", l, v>>)
 TSpec == TInit /\ [][TNext]_<<l, vars>>
 PostCond == IF TLCGet("stats").diameter - 1 = Len(Rec) THEN TRUE
